@@ -452,7 +452,12 @@ func parseRealms(lines []string) (realms []Realm, err error) {
 			c--
 			if c == 0 {
 				var r Realm
-				e := r.parseLines(name, lines[start+1:i])
+				// A block opened and closed on the same line ("REALM = { }") has no lines of its own.
+				var block []string
+				if i > start {
+					block = lines[start+1 : i]
+				}
+				e := r.parseLines(name, block)
 				if e != nil {
 					if _, ok := e.(UnsupportedDirective); !ok {
 						err = e
